@@ -166,6 +166,12 @@ try:
 except ImportError:      # pragma: no cover
     _sws = None
 
+try:
+    from wormhole_transit_relay import transit_server as _relay_ts
+    _relay_ts.time = SIMTIME
+except ImportError:      # pragma: no cover
+    _relay_ts = None
+
 # local environment
 ADDRESSES = ["127.0.0.1", "10.1.0.1"]
 
